@@ -102,6 +102,12 @@ def nasty_strings(rnd, n):
     return out
 
 
+# the longest encodings the library can be made to emit (16 and 17 bytes)
+LONGEST = ["and qword [r8d+r9d*8+0x12345678], 0x1122334455667788", "add qword [eax+ecx*8+0x12345678], 0x1122334455667788", "test qword [r8d+r9d*8+0x12345678], 0x1122334455667788",
+           "test qword [rsp+0x100], 0xffffffff", "sbb qword [eax+ebx*8+0x12345678], 0x1122334455667788", "imul r8, [r8d+r9d*4+0x12345], 0x12345678",
+           "vperm2i128 ymm1, ymm2, [eax+ecx*4+0x12345], 0x5", "mov qword [r8d+r9d*4+0x12345], 0x12345678"]
+
+
 def report_settings(prop, found):
     seen = collections.Counter()
     for p, r, evname, sc, evs in found:
@@ -155,6 +161,16 @@ def run(prop, tier, replay=None):
     os.environ["ASAN_OPTIONS"] = "detect_leaks=0:abort_on_error=1"
     os.environ["UBSAN_OPTIONS"] = "halt_on_error=1:abort_on_error=1"
     events = A.run_lines(recs, ctx="solo0,mid", modes="plain,fit,count", opts="two", variant="san")
+    if not replay:
+        # the same build with the debug listing switched on: the longest encodings and every kind of well-formed line (what is listed is not
+        # judged, that listing it touches no memory it should not is - the sanitizers watch)
+        os.environ["LINERUN_DEBUG"] = "1"
+        try:
+            dbg = [dict(r, id="dbg-" + r["id"]) for r in recs if r["id"].startswith("val-")][::3] + \
+                  [{"id": "dbg-long-%d" % k, "prop": "C09", "status": "Unconstrained", "text": t} for k, t in enumerate(LONGEST)]
+            events += A.run_lines(dbg, ctx="solo0,mid", modes="plain,fit,count", opts="two", variant="san")
+        finally:
+            del os.environ["LINERUN_DEBUG"]
     bad, judged = A.monitor([dict(e, runs=e["runs"]) for e in events], module="AsmLexical", keys=("id", "runs", "fault", "model"))
     byid = {e["id"]: e for e in events}
     drift, mine = collections.Counter(), []
